@@ -1017,4 +1017,32 @@ theorem updExtend_inv13 {s s' : State} {k size : Nat} {ds : List Int}
                 exact ⟨by rw [mof i]; exact baSum_of_cnt_zero (by rw [fc i]; exact hz), baSum_of_cnt_zero hz⟩
   · cases h
 
+theorem closeBlobbers_frame14 : ∀ {l : List BA} {per : List (Nat × Nat)} {s s' : State},
+    closeBlobbers s l per = some s' →
+    s'.wallet = s.wallet ∧ s'.clients = s.clients ∧ s'.now = s.now ∧ s'.allocs = s.allocs ∧ s'.cps = s.cps ∧
+    s'.vsps = s.vsps ∧ s'.rps = s.rps := by
+  intro l
+  induction l with
+  | nil =>
+    intro per s s' h
+    cases per with
+    | nil => simp only [closeBlobbers] at h; cases h; exact ⟨rfl, rfl, rfl, rfl, rfl, rfl, rfl⟩
+    | cons p ps => simp [closeBlobbers] at h
+  | cons d ds ih =>
+    intro per s s' h
+    cases per with
+    | nil => simp [closeBlobbers] at h
+    | cons p ps =>
+      obtain ⟨dp, cr⟩ := p
+      simp only [closeBlobbers] at h
+      split at h
+      · split at h
+        · cases h
+        · split at h
+          · cases h
+          · obtain ⟨a1, a2, a3, a4, a5, a6, a7⟩ := ih h
+            exact ⟨a1, a2, a3, a4, a5, a6, a7⟩
+      · cases h
+
+
 end ZChain.Storage
